@@ -268,28 +268,61 @@ func textCandidates(b []byte) []string {
 			}
 		}
 		walk(v)
+		full := func() bool { return len(out) >= 80 }
 		for _, n := range nodes {
+			if full() {
+				break
+			}
 			saved := *n
+			// large containers: halves first (rendering the whole text once per child is quadratic)
+			if n.K == jr.Arr && len(saved.Arr) > 8 {
+				h := len(saved.Arr) / 2
+				n.Arr = saved.Arr[:h]
+				add(gen.Render(v))
+				n.Arr = saved.Arr[h:]
+				add(gen.Render(v))
+				*n = saved
+			}
+			if n.K == jr.Obj && len(saved.Keys) > 8 {
+				h := len(saved.Keys) / 2
+				n.Keys, n.Vals = saved.Keys[:h], saved.Vals[:h]
+				add(gen.Render(v))
+				n.Keys, n.Vals = saved.Keys[h:], saved.Vals[h:]
+				add(gen.Render(v))
+				*n = saved
+			}
 			switch n.K {
 			case jr.Arr:
 				for i := range saved.Arr {
+					if full() || i > 40 {
+						break
+					}
 					n.Arr = append(append([]*jr.Value{}, saved.Arr[:i]...), saved.Arr[i+1:]...)
 					add(gen.Render(v))
 				}
 				*n = saved
-				for _, e := range saved.Arr { // hoist child
+				for i, e := range saved.Arr { // hoist child
+					if full() || i > 40 {
+						break
+					}
 					*n = *e
 					add(gen.Render(v))
 					*n = saved
 				}
 			case jr.Obj:
 				for i := range saved.Keys {
+					if full() || i > 40 {
+						break
+					}
 					n.Keys = append(append([]string{}, saved.Keys[:i]...), saved.Keys[i+1:]...)
 					n.Vals = append(append([]*jr.Value{}, saved.Vals[:i]...), saved.Vals[i+1:]...)
 					add(gen.Render(v))
 				}
 				*n = saved
-				for _, e := range saved.Vals {
+				for i, e := range saved.Vals {
+					if full() || i > 40 {
+						break
+					}
 					*n = *e
 					add(gen.Render(v))
 					*n = saved
